@@ -115,4 +115,81 @@ def deframe (bs : Bytes) : List Bytes × Bytes := deframeGo bs.length bs
 /-- a payload as `PayloadWriter` hands it to the socket in length-prefixed mode (`C09.framed`) -/
 def lpFrame (body : Bytes) : Bytes := le32 body.length ++ body
 
+/-! ## the payload loop of `Forwarder::run` with its counters (round 7)
+
+`Forwarder::run` keeps a `TelemetryUpdate` per flush cycle (`telemetry_update.clear()` at the top of the cycle) and,
+for every payload of the drain, calls `track_packet_send_succeeded(payload.len())` when `try_send` returned `Ok` and
+`track_packet_send_failed(payload.len())` when it returned `Err` — and goes on with the next payload either way. -/
+
+/-- the send counters of `TelemetryUpdate` (telemetry.rs) -/
+structure SendCounts where
+  packetsSent : Nat
+  bytesSent : Nat
+  packetsDropped : Nat
+  packetsDroppedWriter : Nat
+  bytesDropped : Nat
+  bytesDroppedWriter : Nat
+  deriving DecidableEq, Repr
+
+/-- `TelemetryUpdate::clear` (the send part) -/
+def SendCounts.zero : SendCounts := ⟨0, 0, 0, 0, 0, 0⟩
+
+/-- `TelemetryUpdate::track_packet_send_succeeded` -/
+def trackOk (c : SendCounts) (len : Nat) : SendCounts :=
+  { c with packetsSent := c.packetsSent + 1, bytesSent := c.bytesSent + len }
+
+/-- `TelemetryUpdate::track_packet_send_failed` -/
+def trackFailed (c : SendCounts) (len : Nat) : SendCounts :=
+  { c with packetsDropped := c.packetsDropped + 1, packetsDroppedWriter := c.packetsDroppedWriter + 1,
+           bytesDropped := c.bytesDropped + len, bytesDroppedWriter := c.bytesDroppedWriter + len }
+
+/-- the two arms of `if let Err(e) = self.client_state.try_send(payload) { … } else { … }` -/
+def track (c : SendCounts) (len : Nat) : Option Nat → SendCounts
+  | none => trackFailed c len
+  | some _ => trackOk c len
+
+/-- the `while let Some(payload) = payloads.next_payload()` loop of one flush cycle, with its counters: `try_send`
+    for every payload in order, whatever the earlier results, and one `track_*` call per payload -/
+def cycle : Fwd → SendCounts → List (Bytes × Env) → Fwd × SendCounts
+  | s, c, [] => (s, c)
+  | s, c, (p, e) :: ops => cycle (trySend s p e).1 (track c p.length (trySend s p e).2) ops
+
+/-! ## the UDP client socket (`Client::from_forwarder_config`, `RemoteAddr::Udp` arm) -/
+
+/-- address family of a socket address -/
+inductive Family
+  | v4
+  | v6
+  deriving DecidableEq, Repr
+
+/-- how the UDP arm picks the local address it binds before `connect`: a fixed family (the code as it stands binds
+    `Ipv4Addr::UNSPECIFIED`), or the family of the remote address it is about to connect to -/
+inductive UdpBind
+  | fixed (f : Family)
+  | ofRemote
+  deriving DecidableEq, Repr
+
+/-- `socket.connect(addr)` on a socket of family `local`: the kernel refuses an address of the other family
+    (`EAFNOSUPPORT`; `std` binds plain `AF_INET` / `AF_INET6` sockets, an `AF_INET` socket cannot reach `::1`) -/
+def connectFamilyOk (l r : Family) : Bool := l == r
+
+/-- `bind(..).and_then(|socket| socket.connect(&addrs[..]))`: `connect` tries the addresses in order and succeeds with
+    the first one the socket can be connected to; no address → error.  (Loopback / routable targets: the only failure
+    modelled is the family mismatch.) -/
+def udpConnects (b : UdpBind) (remotes : List Family) : Bool :=
+  match b with
+  | .fixed f => remotes.any (connectFamilyOk f)
+  | .ofRemote => !remotes.isEmpty
+
+/-- the environment a UDP client of bind policy `b` towards `remotes` lives in when nothing else goes wrong: connects
+    succeed iff the families allow it, every datagram is accepted -/
+def udpEnv (b : UdpBind) (remotes : List Family) : Env := ⟨udpConnects b remotes, .full⟩
+
+/-- the bind policy a given source text of the `UdpSocket::bind(..)` call stands for (the text comes from the
+    translator: `Generated.dsd_udp_bind`); unknown text → none -/
+def udpBindOfSource (bindText : String) : Option UdpBind :=
+  if bindText = "UdpSocket::bind((Ipv4Addr::UNSPECIFIED, 0))" then some (.fixed .v4)
+  else if bindText = "UdpSocket::bind(unspecified_for(addr))" then some .ofRemote
+  else none
+
 end MetricsVerif.StatsdFwd
